@@ -109,6 +109,7 @@ func c11Worker(args []string) int {
 	return vlib.ServeJobs(func(job string) string {
 		var j c11Job
 		json.Unmarshal([]byte(job), &j)
+		vsync.NewestFirst = j.Newest
 		sc, ok := scs[j.Scenario]
 		res := c11Result{Scenario: j.Scenario, Executions: map[string]int{}, Outcomes: map[string]int{}, Observed: map[string]int{}, Completed: -1}
 		if !ok {
@@ -197,7 +198,7 @@ func c11Worker(args []string) int {
 			}
 			res.Executions["replay"] = 3
 			for cl, n := range count {
-				v := c11Viol{Class: cl, What: what[cl], Schedule: j.Replay, Repro: n}
+				v := c11Viol{Class: cl, What: what[cl], Schedule: j.Replay, Newest: j.Newest, Repro: n}
 				if lastEx != nil {
 					v.Trace = traceOf(lastEx)
 				}
@@ -293,7 +294,7 @@ func c11Worker(args []string) int {
 						}
 					}
 					total += 3
-					res.Viol = append(res.Viol, c11Viol{Class: p[0], What: p[1], Schedule: choices, Trace: traceOf(ex), Repro: repro})
+					res.Viol = append(res.Viol, c11Viol{Class: p[0], What: p[1], Schedule: choices, Newest: j.Newest, Trace: traceOf(ex), Repro: repro})
 				}
 				// only schedules with exactly `bound` preemptions are new at this level; children are generated from every point
 				pre := 0
@@ -358,6 +359,7 @@ func runC11(c *vlib.Ctx) {
 			Replay struct {
 				Scenario string
 				Schedule []int
+				Newest   bool `json:"newest_first"`
 			}
 		}
 		b, err := os.ReadFile(c.ReplayFile)
@@ -371,7 +373,7 @@ func runC11(c *vlib.Ctx) {
 		if rf.Replay.Schedule == nil {
 			rf.Replay.Schedule = []int{}
 		}
-		jb, _ := json.Marshal(c11Job{Scenario: rf.Replay.Scenario, Replay: rf.Replay.Schedule})
+		jb, _ := json.Marshal(c11Job{Scenario: rf.Replay.Scenario, Replay: rf.Replay.Schedule, Newest: rf.Replay.Newest})
 		jobs, names = []string{string(jb)}, []string{rf.Replay.Scenario}
 		c.Set("replayed", c.ReplayFile)
 	}
